@@ -246,18 +246,21 @@ type cfgPos struct {
 
 // nodePos finds the (block, index) of the CFG node containing the AST node target.
 func (f *fnCFG) nodePos(target ast.Node) (cfgPos, bool) {
+	best := cfgPos{}
+	bestLen := token.Pos(-1)
 	for _, b := range f.G.Blocks {
 		if !b.Live {
 			continue
 		}
 		for i, n := range b.Nodes {
 			if n.Pos() <= target.Pos() && target.End() <= n.End() {
-				// make sure target is not inside a nested FuncLit of n
-				return cfgPos{b, i}, true
+				if l := n.End() - n.Pos(); bestLen < 0 || l < bestLen {
+					best, bestLen = cfgPos{b, i}, l
+				}
 			}
 		}
 	}
-	return cfgPos{}, false
+	return best, bestLen >= 0
 }
 
 // isExit reports a block with no successors that ends by return or falling off the end (not by panic).
@@ -466,3 +469,5 @@ func failEdge(b *cfg.Block, isG func(ast.Expr) bool) (int, ast.Expr, bool) {
 	}
 	return 0, nil, false
 }
+
+type cfgBlk = cfg.Block
